@@ -147,6 +147,7 @@ def check(repo, col, tier):
         _elementary(repo, col, cls)
     _struct(repo, col)
     _exact_bounds(repo, col, "R-C17-bounds")
+    _no_saturation(repo, col, "R-C17-saturation")
     col.rule("R-C17-overflow", "no logarithm of an exponential that can overflow on the domain", 2)
     _overflow(repo, col, "R-C17-overflow")
 
@@ -330,6 +331,21 @@ def _overflow(repo, col, R):
 defs = {}
 
 
+def _no_saturation(repo, col, R):
+    """A declared bijection is strictly monotone on all of R: its forward / inverse contain no saturating primitive at all (clip,
+    minimum, maximum, a `where` that substitutes a constant) -- whatever the bound is computed from (`finfo(float32).eps`, ...), beyond it
+    the map is constant, so it is not injective and inverse(forward(x)) != x there.  (Decided on the syntax, so it also holds when
+    the evaluation of the method is outside the analysable fragment.)"""
+    mi = repo.mod(TF)
+    for cls in ELEMENTARY:
+        for mname in ("forward", "inverse"):
+            fi = repo.method(cls, mname)
+            sat = [c for c in ast.walk(fi.node) if isinstance(c, ast.Call) and unparse(c.func).split(".")[-1] in ("clip", "minimum", "maximum", "fmin", "fmax", "nan_to_num")]
+            col.check(not sat, R, fi, f"{cls}.{mname}: no saturating primitive", "strictly monotone on all of R",
+                      f"`{unparse(sat[0])[:70] if sat else ''}` saturates: {cls}.{mname} is constant beyond the bound (under x64 already for |x| > ~16 if the bound is a "
+                      f"float32 epsilon), neither injective nor invertible there", node=sat[0] if sat else fi.node)
+
+
 def _exact_bounds(repo, col, R):
     """The interval a transform maps onto is the one DECLARED: whatever the constructor stores is computed from its arguments in
     the precision they were given in.  A narrowing cast (dtype=float32 / float16 / bfloat16 / an integer type, `.astype` to one of
@@ -360,6 +376,25 @@ def _exact_bounds(repo, col, R):
                   f"leaves the declared interval near saturation and inverse() of a value in the gap is not finite", node=bad or fi.node)
     if n < 5:
         raise AnalysisError(f"only {n} transform constructors found")
+    # the mask of a MaskedTransform selects ENTRIES: it is stored with the shape it was given in (a (n, 1) column mask broadcasts over
+    # rows, the same mask squeezed to (n,) broadcasts over columns)
+    mt = mi.classes.get("MaskedTransform")
+    if mt is not None and "__init__" in mt.methods:
+        fi = mt.methods["__init__"]
+        ex = idx.expander(repo, fi)
+        st = [s_ for s_ in ex.stores if s_.kind == "attr" and s_.key.name == "mask"]
+        if not st:
+            col.unk(R, fi, "MaskedTransform stores the mask with the shape it is given in", "store not found", node=fi.node)
+        for s_ in st:
+            t = s_.value
+            while t.op in ("mcall", "call") and t.name in ("asarray", "array", "astype", "copy") and t.args:
+                t = next((a_ for a_ in t.args if a_.op != "free"), t.args[0])
+            reshaped = T.find(s_.value, lambda x: (x.op in ("mcall", "call") and x.name in ("squeeze", "ravel", "flatten", "reshape", "atleast_1d", "any", "all", "transpose")) or
+                              (x.op == "attr" and x.name == "T"))
+            col.add(R, fi, "MaskedTransform stores the mask with the shape it is given in", "DISCHARGED" if t.op == "param" else ("VIOLATED" if reshaped is not None else "UNDECIDED"),
+                    "self.mask = mask" if t.op == "param" else
+                    f"the mask is stored as `{s_.value.short(70)}`: a mask with a broadcasting axis (shape (n, 1), to select rows of an (n, k) parameter) then selects "
+                    f"other entries -- bounded entries pass through untransformed and untouched ones are transformed, identically in forward and inverse", node=s_.node)
 
 
 def _log_inner_atoms(ev, r):
